@@ -36,13 +36,16 @@ def gen_history(rng, nops, ctx):
         r = rng.below(100)
         if r < 35:
             m = rng.bytes(rng.choice([0, 1, 2, 5, 100, 20000]) if rng.chance(1, 4) else rng.range(1, 12))
-            w = ("ok:%d" % rng.choice([1, 2, 3, len(m) or 1, 100000])) if rng.chance(1, 2) else ("z0" if rng.chance(1, 12) else rand_ev(rng))
-            ops.append("S %s %s %s" % (hexs(m), rand_hs(rng), w))
+            def rw():
+                return ("ok:%d" % rng.choice([1, 2, 3, len(m) or 1, 100000])) if rng.chance(1, 2) else ("z0" if rng.chance(1, 12) else rand_ev(rng))
+            ops.append("S %s %s %s" % (hexs(m), rand_hs(rng), " ".join(rw() for _ in range(rng.range(1, 4)))))
         elif r < 68:
             d = ("d:" + hexs(rng.bytes(rng.choice([1, 2, 3, 10, 100, 1000])))) if rng.chance(1, 2) else rand_ev(rng)
-            ops.append("R %d %s %s" % (rng.choice([1, 2, 3, 64, 100000]), rand_hs(rng), d))
+            fw = " ".join((("ok:%d" % rng.choice([1, 2, 100000])) if rng.chance(1, 2) else ("z0" if rng.chance(1, 12) else rand_ev(rng))) for _ in range(rng.below(3)))
+            ops.append(("R %d %s %s %s" % (rng.choice([1, 2, 3, 64, 100000]), rand_hs(rng), d, fw)).strip())
         elif r < 80:
-            ops.append("F %s %s" % (rand_hs(rng), "ok" if rng.chance(2, 3) else rng.choice(["EAGAIN", "ECONNRESET"])))
+            fw = " ".join((("ok:%d" % rng.choice([1, 2, 100000])) if rng.chance(1, 2) else rand_ev(rng)) for _ in range(rng.below(3)))
+            ops.append(("F %s %s %s" % (rand_hs(rng), "ok" if rng.chance(2, 3) else rng.choice(["EAGAIN", "ECONNRESET"]), fw)).strip())
         else:
             ops.append("U %d %d" % (rng.below(4), rng.below(2)))
     return ops
@@ -90,7 +93,7 @@ class Monitor:
             verified = st["hs_ok"] and (not st["auth"] or st["cert"] == "ok")
             if state == "ready" and not verified:
                 viol("ready-without-verification", "the connection became usable although the handshake did not succeed or the peer's certificate was not accepted (auth=%s cert=%s)" % (st["auth"], st["cert"]))
-            if (calls["wr"] == "1" or calls["rd"] == "1") and not verified:
+            if (calls["wr"] != "0" or calls["rd"] != "0") and not verified:
                 viol("data-before-verification", "SSL_write/SSL_read was called (application data handed over or fetched) before the peer was verified")
             if w[0] == "R" and rc > 0 and not verified:
                 viol("data-before-verification", "received data was handed to the application before the peer was verified")
@@ -118,7 +121,8 @@ class Monitor:
 
 
 EVS = ["wr", "ww", "zr", "se"] + ["sc:%s:0" % e for e in ERRS] + ["sc:ECONNRESET:1", "sc:EPIPE:0"]
-FOLLOW = ["S 0102 ok ok:2", "R 10 ok d:0a0b", "F ok ok", "R 10 ok zr", "S 01 ok ww", "R 5 ok wr", "F ok EAGAIN", "U 3 0", "U 1 1", "U 0 0"]
+FOLLOW = ["S 0102 ok ok:2", "R 10 ok d:0a0b", "F ok ok", "R 10 ok zr", "S 01 ok ww", "U 0 0", "U 1 0", "S 0304 ok ww", "R 5 ok wr ww", "U 1 0", "R 5 ok d:0c wr", "U 3 0",
+          "F ok ok ok", "R 5 ok wr", "F ok EAGAIN", "U 3 0", "U 1 1", "U 0 0", "S 0506 ok wr", "R 5 ok wr ok", "U 1 0"]
 
 
 def fault_enumeration(ctx):
@@ -151,11 +155,18 @@ def fault_enumeration(ctx):
 
 
 def update_enumeration(ctx):
-    """conn_update for every reachable (state, ssl_condition, ssl_wants) x awaited condition x SSL_has_pending"""
+    """conn_update for every reachable (state, ssl_condition, ssl_wants, retained output, pending_write_wants) x awaited condition x SSL_has_pending"""
     ops = []
     setups = [["N 1 1 ok wr"], ["N 1 1 ok ww"], ["N 1 1 ok sc:EINPROGRESS:0"],
               ["N 1 1 ok ok"], ["N 1 1 ok ok", "S 01 ok wr"], ["N 1 1 ok ok", "S 01 ok ww"],
               ["N 1 1 ok ok", "R 9 ok wr"], ["N 1 1 ok ok", "R 9 ok ww"], ["N 1 1 ok ok", "S 01 ok sc:EINPROGRESS:0"],
+              ["N 1 1 ok ok", "S 010203 ok ww", "F ok ok ok:1 wr"], ["N 1 1 ok ok", "S 010203 ok wr", "F ok ok ok:2 ww"],
+              ["N 1 1 ok ok", "S 0102 ok ww", "F ok ok ok:2"], ["N 1 1 ok ok", "S 0102 ok ww", "R 9 ok wr"],
+              ["N 1 1 ok ok", "S 0102 ok wr", "R 9 ok d:0a"], ["N 1 1 ok ok", "S 0102 ok ww", "S 0304 ok ok:2 ok:1"],
+              ["N 1 1 ok ok", "S 0102 ok ww", "S 0304 ok ok:2 ww"], ["N 1 1 ok ok", "S 0102 ok ww", "F ok ok zr"],
+              ["N 1 1 ok ok", "S 0102 ok ww", "R 9 ok wr ww"], ["N 1 1 ok ok", "S 0102 ok ww", "R 9 ok wr wr"],
+              ["N 1 1 ok ok", "S 0102 ok wr", "R 9 ok ww ok:1 ww"], ["N 1 1 ok ok", "S 0102 ok ww", "R 9 ok wr ok"],
+              ["N 1 1 ok ok", "S 0102 ok ww", "R 9 ok wr zr"], ["N 1 1 ok ok", "S 0102 ok ww", "R 9 ok wr sc:ECONNRESET:0"],
               ["N 1 1 ok ok", "R 9 ok zr"], ["N 1 1 ok ok", "R 9 ok se"], ["N 1 1 rejected ok"], ["N 1 1 ok sc:ECONNRESET:0"]]
     for su in setups:
         ops += su
